@@ -23,6 +23,7 @@ package keeper
 //@   requires forall i int :: 0 <= i && i <= MaxUint64 && has(Shard, i) ==> Shard[i].Id == i && Shard[i].Pledge.Amount >= 0
 //@   requires has(Order, msg.OrderId) ==> Order[msg.OrderId].Id == msg.OrderId
 //@   requires has(Order, msg.OrderId) && has(Metadata, Order[msg.OrderId].DataId) ==> Metadata[Order[msg.OrderId].DataId].DataId == Order[msg.OrderId].DataId
+//@       && Metadata[Order[msg.OrderId].DataId].CreatedAt + Metadata[Order[msg.OrderId].DataId].Duration <= MaxUint64
 //@   requires forall h int :: 0 <= h && h <= MaxUint64 && has(ExpiredData, h) ==> ExpiredData[h].Height == h
 //@   requires [C11.sched.unique] has(Order, msg.OrderId) && has(Metadata, Order[msg.OrderId].DataId) ==> forall h int :: 0 <= h && h <= MaxUint64 && has(ExpiredData, h) && contains(ExpiredData[h].Data, Order[msg.OrderId].DataId)
 //@         ==> h == u64(Metadata[Order[msg.OrderId].DataId].CreatedAt + Metadata[Order[msg.OrderId].DataId].Duration)
